@@ -1,12 +1,17 @@
+mod bigalloc;
 mod calls;
 mod checks;
 mod conv;
 mod harness;
+mod isolate;
 mod laws;
 mod univ;
 
 use harness::*;
 use std::time::Instant;
+
+#[global_allocator]
+static GLOBAL: bigalloc::BigAlloc = bigalloc::BigAlloc;
 
 fn usage() -> ! {
     eprintln!("usage: mc check <ID> [--tier quick|thorough] | mc replay <file>");
@@ -27,10 +32,12 @@ fn plan(prop: &str, tier: Tier) -> Option<Plan> {
         "C04" => (checks::c04::spaces(tier), checks::c04::meta(tier)),
         "C05" => (checks::c05::spaces(tier), checks::c05::meta(tier)),
         "C06" => (checks::c06::spaces(tier), checks::c06::meta(tier)),
+        "C10" => (checks::c10::spaces(tier), checks::c10::meta(tier)),
         "C12" => (checks::c12::spaces(tier), checks::c12::meta(tier)),
         "C13" => (checks::c13::spaces(tier), checks::c13::meta(tier)),
         "C14" => (checks::c14::spaces(tier), checks::c14::meta(tier)),
         "C19" => (checks::c19::spaces(tier), checks::c19::meta(tier)),
+        "C17" => (checks::c17::spaces(tier), checks::c17::meta(tier)),
         "C18" => (checks::c18::spaces(tier), checks::c18::meta(tier)),
         _ => return None,
     };
@@ -41,6 +48,9 @@ fn main() {
     let args: Vec<String> = std::env::args().collect();
     if args.len() < 3 {
         usage();
+    }
+    if std::env::var("MC_SYSTEM_ALLOC").is_ok() || args[1] == "worker" {
+        bigalloc::disable();
     }
     install_panic_hook();
     let seed: i64 = std::env::var("VERIF_SEED").ok().and_then(|s| s.parse().ok()).unwrap_or(0);
@@ -74,7 +84,12 @@ fn main() {
                 assumptions: p.assumptions,
                 exhaustive: true,
                 caps_hit: vec![],
-                extra: Default::default(),
+                extra: [
+                    ("largest_single_allocation_request_bytes".to_string(), serde_json::json!(bigalloc::BIGGEST.load(std::sync::atomic::Ordering::Relaxed))),
+                    ("allocation_requests_over_16MiB".to_string(), serde_json::json!(bigalloc::BIG_REQUESTS.load(std::sync::atomic::Ordering::Relaxed))),
+                ]
+                .into_iter()
+                .collect(),
             };
             let code = finish(&prop, tier, seed, t0, out, Some(&p.spaces));
             std::process::exit(code);
@@ -104,6 +119,14 @@ fn main() {
                     std::process::exit(2);
                 }
             }
+        }
+        "worker" => {
+            let kind = args[2].clone();
+            let f: Box<dyn Fn(&str) -> String> = match kind.as_str() {
+                "c10" => Box::new(|c| checks::c10::worker(c)),
+                _ => usage(),
+            };
+            isolate::worker_loop(&*f);
         }
         _ => usage(),
     }
